@@ -11,7 +11,10 @@ Oracles = * algebraic layers (semilocal plan, exponent functions, every normalis
             co-scaled grid: the measured exponent log(F_lambda / F) / log(lambda) at every point with
             density > 1e-3 must equal the DECLARED power within 0.05 for each lambda (declared powers
             are integers, the truncation error of the expansion is ~1e-3, so this decides the table
-            entry), and the normalised features must be scale invariant within 2e-2;
+            entry), and the normalised features must be scale invariant within 5e-2 (smallest integer
+            mismatch: 0.33; measured noise of the co-scaled pipeline: 2.3e-2); the exponent window, the
+            cutoffs, the radial-grid parameter and the covalent-radius table of the initialiser are
+            co-scaled, only the snapping of the auxiliary ladder to powers of beta remains;
           * consequence: a model reading only scale-invariant features with LDA exchange baseline
             obeys E_x[n_lambda] = lambda E_x[n] (1e-9 for semilocal models, 3e-3 with nonlocal
             features), through nr_rks.
